@@ -172,7 +172,7 @@ class SimE(Simulator):
             always = ["block", "threshold", "wait", "base"]
         feats = gen.pick_features(rng, always=always, never=["pause", "hold"] if rng.random() < 0.7 else [])
         method = gen.gen_method(rng, feats, max_lines=rng.randint(3, 25), time_scale=0.5)
-        if rng.random() < 0.15:
+        if rng.random() < 0.3:
             method = gen.gen_scenario(rng)
         ops: list[list] = [["user", "Start"]]
         if rng.random() < 0.4:
@@ -399,7 +399,8 @@ class SimE(Simulator):
                 "Simulate: PV1 = x L/h", "Simulate off: Nope", "Run counter: x", "Pause: 1", "Hold: x", "Boom", "BoomInit",
                 "BadArgs: 1", "NoSuchCommand: 1", "1.0", "0.5 ", "    Mark: indented", "\tMark: tab", "Mark: \u00e6\u00f8\u00e5 \u2603",
                 "\u2603: 1", "#", "Restart", "Stop", "Info", "Warning:", "Error: e", "Notify", "Increment run counter: 3",
-                "0.1 0.2 Mark: a", "Mark: a # c", "Mark: a: b", "5 Stop", "Batch:"]
+                "0.1 0.2 Mark: a", "Mark: a # c", "Mark: a: b", "5 Stop", "Batch:", "Stop: now", "Restart: x", "Pause: abc",
+                "Hold: 1 furlong", "Unpause: 1", "Stop: now", "Pause: abc"]
         for _ in range(rng.randint(1, 5)):
             k = rng.randint(0, len(method))
             txt = rng.choice(junk).encode().decode("unicode_escape") if False else rng.choice(junk)
